@@ -113,6 +113,10 @@ def roundtrip_part(ctx: vlib.Ctx):
     ctx.theorems("props/C01_roundtrip.vo", ["C01_roundtrip", "C01_conf_ord_is_conf", "C01_roundtrip_codec", "C01_roundtrip_total"])
     ctx.theorems("props/C01_ntdict.vo", ["C01_ntdict_roundtrip", "C01_ntdict_roundtrip_total"])
     ctx.theorems("props/C01_typevar.vo", ["C01_typevar_roundtrip_total"], kernels=["K45c"])
+    # the round trip composes the C02 / C03 models of the NamedTuple (un)packers: their tie to the emitted code (kernels K45 / K45b,
+    # fail closed when pack_named_tuple / unpack_named_tuple change) is part of what C01 rests on
+    ctx.theorems("props/C03_ntdict_kernel.vo", ["C03_named_code_is_model", "C03_ntdict_code_is_model"], kernels=["K45"])
+    ctx.theorems("props/C02_ntdict_kernel.vo", ["C02_named_code_is_model", "C02_ntdict_code_is_model"], kernels=["K45b"])
     ctx.coqchk(["VerifProps.C01_roundtrip", "VerifProps.C01_tz", "VerifProps.C01_ntdict", "VerifProps.C01_typevar"])
     ctx.trusted.append("TyModel.v (cp/pk, cu/uk) tied by vm_compute correspondence; stdlib render/parse pairs are oracle functions whose "
                        "round-trip law is a hypothesis of the theorem restricted to the values present (atoms_ok)")
@@ -125,9 +129,6 @@ def roundtrip_part(ctx: vlib.Ctx):
                            "positions / in holder dataclasses under the global option, generic NamedTuples/TypedDicts and collections.namedtuple are oracle only")
     cases, bad, log = tycorr.run(ctx, "c01_ty", ctx.budget(50, 400), 3, depth=3, foreign=1)
     hits = tyoracle.report_corr(ctx, "TyModel (pk, uk) vs BasicEncoder/BasicDecoder", cases, bad, log)
-    ncases, nbad, nlog = tycorr.run_nd(ctx, "c01_nd", ctx.budget(16, 120), foreign=1)
-    hits += tyoracle.report_corr(ctx, "TyNtDict (pk_nd, uk_nd) vs BasicEncoder/BasicDecoder under an as_dict dialect", ncases, nbad, nlog)
-    tv_part(ctx, "c01_tv", None, ctx.budget(12, 100))
     n = ctx.budget(900, 6000) if not hits else ctx.budget(2500, 12000)
     for fam, ns, t, ty, sg in tyoracle.schema_stream(ctx.rng, n, literals=True):
         try:
@@ -266,6 +267,11 @@ def run(ctx: vlib.Ctx):
     roundtrip_part(ctx)
     as_dict_part(ctx)
     scenario_part(ctx)
+    # round-6 parts last: the random streams of the parts above stay what they were for every seed
+    from harness import tycorr, tyoracle
+    ncases, nbad, nlog = tycorr.run_nd(ctx, "c01_nd", ctx.budget(16, 120), foreign=1)
+    tyoracle.report_corr(ctx, "TyNtDict (pk_nd, uk_nd) vs BasicEncoder/BasicDecoder under an as_dict dialect", ncases, nbad, nlog)
+    tv_part(ctx, "c01_tv", None, ctx.budget(12, 100))
 
 
 def replay(rep: dict) -> int:
